@@ -174,6 +174,12 @@ def oracleC06 (o : OSt) (_op : OpKind) (_log : List String) (cur : World) : Stri
     else if tHas t .succeeded && (tHas t .failed || tHas t .metricsUnavailable || tHas t .earlyStopped) then
       some s!"fail succeeded-coexists-with-another-verdict {t.key.name}"
     else if tHas t .succeeded && !obsAvailable t.st then some s!"fail succeeded-without-objective-value {t.key.name}"
+    else if newly .succeeded && !((dbOf cur t.key.name).any (fun e => e.metric = objMetric && e.text != Metrics.unavailable)) then
+      some s!"fail succeeded-although-no-objective-value-was-reported {t.key.name}"
+    else if (match findTrial o.prev t.key with | some p => p.st.obs != t.st.obs | none => true) && (match t.st.obs with
+        | some ms => ms.any (fun m => m.name = objMetric && m.latest != Metrics.unavailable &&
+            !((dbOf cur t.key.name).any (fun e => e.metric = objMetric && e.text = m.latest)))
+        | none => false) then some s!"fail observation-holds-a-value-never-reported-for-the-objective {t.key.name}"
     else if newly .succeeded && jobState != some .succeeded then some s!"fail succeeded-but-job-did-not-satisfy-success-condition {t.key.name}"
     else if newly .failed && !(jobState == some .failed || jobState == some .both) then some s!"fail failed-but-job-did-not-satisfy-failure-condition {t.key.name}"
     else if newly .metricsUnavailable && obsAvailable t.st then some s!"fail metrics-unavailable-although-objective-value-collected {t.key.name}"
